@@ -148,8 +148,6 @@ Proof.
     eapply Permutation_in; eauto.
   - (* RecvHeader discards a frame with no registered call: then its request is not registered *)
     exfalso. apply lookup_None in Heqo. apply Heqo. apply (in_map fst) in Hin. exact Hin.
-  - (* RecvBodyErr, not a net error: nothing of the body is left *)
-    unfold lok in Hl. destruct Hl as [Hx|Hx]; [discriminate|]. subst. cbn. eapply J; eauto.
 Qed.
 
 End step.
